@@ -1,3 +1,3 @@
     ensures
-        r is Ok ==> unexpired(*layout),   // [C06]
+        r is Ok ==> unexpired(*layout),   // [C06,C08]
         r is Err ==> exists|now: int| chrono::clock_reading(now) && chrono::instant(layout.expires) < now,     // [C06]
